@@ -27,6 +27,43 @@ ASSUMPTIONS = [
 ]
 
 
+_IDENT_TYPES = re.compile(r"^&*(mut )?(usize|u8|u16|u32|u64|u128|isize|i8|i16|i32|i64|i128|bool|proc_macro2::Ident|syn::Ident|(leptos_i18n_parser::utils::)?Key|(std::rc::)?Rc<(leptos_i18n_parser::utils::)?Key>)$")
+_NUM_TYPES = re.compile(r"^&*(mut )?(usize|u8|u16|u32|u64|u128|isize|i8|i16|i32|i64|i128|bool)$")
+
+
+def _ident_always_valid(ast, b, site):
+    """a `format_ident!` whose result is an identifier whatever the run-time values: the template consists of identifier
+    characters and placeholders, starts with a letter / underscore (or with a placeholder filled by an identifier), and every
+    interpolated value is an integer, an Ident or a parser Key (validated as an identifier by Key::new) - never text.
+    Returns (template, reason) or None."""
+    from astlib import find_all
+    line = site["line"]
+    tys = []
+    for blk in b.blocks:
+        for st in blk["stmts"]:
+            if st.get("k") == "Assign" and st.get("line") == line and st["rv"].get("k") == "Aggregate" and st["rv"].get("adt") == "quote::__private::IdentFragmentAdapter" and not st["place"]["p"]:
+                m = re.match(r"^quote::__private::IdentFragmentAdapter<(.*)>$", b.local_ty(st["place"]["l"]))
+                tys.append(m.group(1) if m else "?")
+    macros = []
+    for f in ast.fns:
+        if f.file == b.file and f.body is not None and not f.is_test():
+            for mnode in find_all(f.body, "Macro"):
+                if mnode.get("path") == "format_ident" and mnode.get("line") == line and mnode.get("args") and mnode["args"][0].get("k") == "Lit":
+                    macros.append(mnode)
+    if len({id(x) for x in macros}) < 1 or len({m["args"][0].get("str") for m in macros}) != 1:
+        return None
+    tmpl = macros[0]["args"][0].get("str") or ""
+    nph = len(re.findall(r"\{[^}]*\}", tmpl))
+    if nph != len(tys) or not all(_IDENT_TYPES.match(t) for t in tys):
+        return None
+    rest = re.sub(r"\{[^}]*\}", "", tmpl)
+    if not re.match(r"^[A-Za-z0-9_]*$", rest) or not re.search(r"[A-Za-z_]", rest):
+        return None
+    if not (re.match(r"^[A-Za-z_]", tmpl) or (tmpl.startswith("{") and tys and not _NUM_TYPES.match(tys[0]))):
+        return None
+    return tmpl, "template `%s` with %s: an identifier for every value" % (tmpl, ", ".join(tys) or "no arguments")
+
+
 def p1_inventory(ctx, cfgs):
     r = Rule("C09.P1", "panic-capable site inventory vs confirmed table",
              "a panic-capable construct reachable from the load entry points that is not known to be guarded can be "
@@ -53,6 +90,11 @@ def p1_inventory(ctx, cfgs):
                         tys.append(b.local_ty(p["l"]) if p and not p["p"] else (c["ty"] if c else "?"))
                     if all(ty in ("usize", "?") for ty in tys):
                         r.inst("%s#Overflow(Add)" % b.name, "auto-discharged: usize length/offset addition", cfg=cfg)
+                        continue
+                if s["kind"] == "ident-new" and s["what"] == "format_ident!":
+                    why = _ident_always_valid(ctx.ast, b, s)
+                    if why:
+                        r.inst("%s#format_ident!@%s" % (root_fn(b.name), why[0]), "auto-discharged: " + why[1], cfg=cfg)
                         continue
                 key = (root_fn(b.name), s["kind"], s["label"] or s["what"])
                 counts[key] += 1
